@@ -560,4 +560,258 @@ theorem u256Pow_eq (fl : Flags) (x e : Nat) (he : e < 2 ^ 32) :
     rw [u256PowLoop_eq fl 33 e x 1 (by omega) (by omega) (Or.inl (le_refl _))]
     simp only [Nat.one_mul]
 
+
+/-! ## log, log2 -/
+
+/-- repeated division computes the floor logarithm -/
+theorem ilogAux_spec (b : Nat) (hb : 2 ≤ b) : ∀ (f n : Nat), 1 ≤ n → n < 2 ^ f →
+    b ^ (ilogAux b f n) ≤ n ∧ n < b ^ (ilogAux b f n + 1) := by
+  intro f
+  induction f with
+  | zero => intro n h1 h2; simp at h2; omega
+  | succ f ih =>
+    intro n h1 h2
+    rw [ilogAux]
+    by_cases c : n < b
+    · simp [c]; omega
+    · simp only [c, ↓reduceIte]
+      have hbpos : 0 < b := by omega
+      have hq1 : 1 ≤ n / b := by
+        rw [Nat.le_div_iff_mul_le hbpos]; omega
+      have hq2 : n / b < 2 ^ f := by
+        rw [Nat.div_lt_iff_lt_mul hbpos]
+        have : 2 ^ (f + 1) = 2 ^ f * 2 := by ring
+        calc n < 2 ^ f * 2 := by omega
+          _ ≤ 2 ^ f * b := Nat.mul_le_mul_left _ hb
+      obtain ⟨i1, i2⟩ := ih (n / b) hq1 hq2
+      constructor
+      · calc b ^ (ilogAux b f (n / b) + 1) = b ^ (ilogAux b f (n / b)) * b := pow_succ _ _
+          _ ≤ (n / b) * b := Nat.mul_le_mul_right _ i1
+          _ ≤ n := Nat.div_mul_le_self n b
+      · rw [Nat.div_lt_iff_lt_mul hbpos] at i2
+        calc n < b ^ (ilogAux b f (n / b) + 1) * b := i2
+          _ = b ^ (ilogAux b f (n / b) + 1 + 1) := (pow_succ _ _).symm
+
+/-- the floor logarithm is unique -/
+theorem log_unique (b : Nat) (hb : 2 ≤ b) (n k m : Nat) (h1 : b ^ k ≤ n) (h2 : n < b ^ (k + 1))
+    (h3 : b ^ m ≤ n) (h4 : n < b ^ (m + 1)) : k = m := by
+  by_contra hne
+  rcases Nat.lt_or_gt_of_ne hne with h | h
+  · have : b ^ (k + 1) ≤ b ^ m := Nat.pow_le_pow_right (by omega) h
+    omega
+  · have : b ^ (m + 1) ≤ b ^ k := Nat.pow_le_pow_right (by omega) h
+    omega
+
+theorem ilog2_eq_log2 (a : Nat) (h1 : 1 ≤ a) (h2 : a < 2 ^ 64) : ilog 2 a = Nat.log2 a := by
+  obtain ⟨i1, i2⟩ := ilogAux_spec 2 (le_refl _) 64 a h1 h2
+  have ha : a ≠ 0 := by omega
+  exact log_unique 2 (le_refl _) a _ _ i1 i2 (Nat.log2_self_le ha) Nat.lt_log2_self
+
+/-- `u64::log` (the `mlog` instruction) while panic-on-unsafe-math is enabled -/
+theorem u64Log_safe (fl : Flags) (hf : fl.unsafeMath = false) (x b : Nat) :
+    U128.u64Log fl x b = if x = 0 ∨ b ≤ 1 then .panic .arithmeticError else .ok (ilog b x) := by
+  unfold U128.u64Log Word.mlog aluError
+  by_cases c : x = 0 ∨ b ≤ 1
+  · have : (x == 0 || decide (b ≤ 1)) = true := by
+      rcases c with c | c <;> simp [c]
+    simp [this, c, hf]
+  · have : (x == 0 || decide (b ≤ 1)) = false := by
+      simp only [not_or] at c
+      simp [c.1, c.2]
+    simp [this, c]
+
+theorem log2_shift (n a s : Nat) (ha : a = n / 2 ^ s) (h0 : a ≠ 0) : Nat.log2 n = Nat.log2 a + s := by
+  have hn : n ≠ 0 := by
+    intro h; subst h; simp at ha; exact h0 ha
+  have i1 : 2 ^ Nat.log2 a ≤ a := Nat.log2_self_le h0
+  have i2 : a < 2 ^ (Nat.log2 a + 1) := Nat.lt_log2_self
+  have hp : 0 < 2 ^ s := Nat.pow_pos (by norm_num)
+  have j1 : 2 ^ (Nat.log2 a + s) ≤ n := by
+    rw [pow_add]
+    calc 2 ^ Nat.log2 a * 2 ^ s ≤ a * 2 ^ s := Nat.mul_le_mul_right _ i1
+      _ ≤ n := by rw [ha]; exact Nat.div_mul_le_self n _
+  have j2 : n < 2 ^ (Nat.log2 a + s + 1) := by
+    have : Nat.log2 a + s + 1 = (Nat.log2 a + 1) + s := by omega
+    rw [this, pow_add, ← Nat.div_lt_iff_lt_mul hp, ← ha]
+    exact i2
+  exact log_unique 2 (le_refl _) n _ _ (Nat.log2_self_le hn) Nat.lt_log2_self j1 j2
+
+/-- `u256::log2` while panic-on-unsafe-math is enabled: reverts on 0, otherwise the position of the
+highest set bit -/
+theorem u256Log2_safe (fl : Flags) (hf : fl.unsafeMath = false) (n : Nat) (hn : n < 2 ^ 256) :
+    u256Log2 fl n = if n = 0 then .revert FAILED_ASSERT else .ok (Nat.log2 n) := by
+  unfold u256Log2
+  by_cases h0 : n = 0
+  · subst h0; simp [panicOnUnsafeMathEnabled, hf]
+  · simp only [h0, and_false, ↓reduceIte]
+    have limb : ∀ a, a ≠ 0 → a < W64 → U128.u64Log fl a 2 = .ok (Nat.log2 a) := by
+      intro a ha1 ha2
+      have : ¬ (a = 0 ∨ 2 ≤ 1) := by omega
+      rw [u64Log_safe fl hf, if_neg this, ilog2_eq_log2 a (by omega) ha2]
+    have l64 : ∀ a, a < W64 → Nat.log2 a < 64 := by
+      intro a ha
+      by_cases hz : a = 0
+      · subst hz; simp [Nat.log2]
+      · rw [Nat.log2_lt hz]; exact ha
+    have hA : n / 2 ^ 192 < W64 := by
+      rw [Nat.div_lt_iff_lt_mul (Nat.pow_pos (by norm_num))]
+      calc n < 2 ^ 256 := hn
+        _ = W64 * 2 ^ 192 := by norm_num
+    by_cases ca : n / 2 ^ 192 ≠ 0
+    · rw [if_pos ca]; simp only [limb _ ca hA, Res.ok_bind]
+      have := l64 _ hA
+      rw [u256Add_ok _ _ _ (by have : (64:ℕ) + 0xc0 < 2 ^ 256 := by norm_num
+                               omega)]
+      rw [log2_shift n _ 192 rfl ca]
+    · rw [if_neg ca]
+      have hB : n / 2 ^ 128 % W64 < W64 := Nat.mod_lt _ (by norm_num)
+      have ca' : n / 2 ^ 192 = 0 := by omega
+      have hn192 : n < 2 ^ 192 := by
+        by_contra hc
+        have : 1 ≤ n / 2 ^ 192 := by
+          rw [Nat.le_div_iff_mul_le (Nat.pow_pos (by norm_num))]; omega
+        omega
+      have eB : n / 2 ^ 128 % W64 = n / 2 ^ 128 := by
+        apply Nat.mod_eq_of_lt
+        rw [Nat.div_lt_iff_lt_mul (Nat.pow_pos (by norm_num))]
+        calc n < 2 ^ 192 := hn192
+          _ = W64 * 2 ^ 128 := by norm_num
+      by_cases cb : n / 2 ^ 128 % W64 ≠ 0
+      · rw [if_pos cb]; simp only [limb _ cb hB, Res.ok_bind]
+        have := l64 _ hB
+        rw [u256Add_ok _ _ _ (by have : (64:ℕ) + 0x80 < 2 ^ 256 := by norm_num
+                                 omega)]
+        rw [eB] at cb ⊢
+        rw [log2_shift n _ 128 rfl cb]
+      · rw [if_neg cb]
+        have hn128 : n < 2 ^ 128 := by
+          by_contra hc
+          have : 1 ≤ n / 2 ^ 128 := by
+            rw [Nat.le_div_iff_mul_le (Nat.pow_pos (by norm_num))]; omega
+          omega
+        have hC : n / 2 ^ 64 % W64 < W64 := Nat.mod_lt _ (by norm_num)
+        have eC : n / 2 ^ 64 % W64 = n / 2 ^ 64 := by
+          apply Nat.mod_eq_of_lt
+          rw [Nat.div_lt_iff_lt_mul (Nat.pow_pos (by norm_num))]
+          calc n < 2 ^ 128 := hn128
+            _ = W64 * 2 ^ 64 := by norm_num
+        by_cases cc : n / 2 ^ 64 % W64 ≠ 0
+        · rw [if_pos cc]; simp only [limb _ cc hC, Res.ok_bind]
+          have := l64 _ hC
+          rw [u256Add_ok _ _ _ (by have : (64:ℕ) + 0x40 < 2 ^ 256 := by norm_num
+                                   omega)]
+          rw [eC] at cc ⊢
+          rw [log2_shift n _ 64 rfl cc]
+        · rw [if_neg cc]
+          have hn64 : n < 2 ^ 64 := by
+            by_contra hc
+            have : 1 ≤ n / 2 ^ 64 := by
+              rw [Nat.le_div_iff_mul_le (Nat.pow_pos (by norm_num))]; omega
+            omega
+          have eD : n % W64 = n := Nat.mod_eq_of_lt hn64
+          have cd : n % W64 ≠ 0 := by rw [eD]; exact h0
+          rw [if_pos cd]
+          rw [limb _ cd (Nat.mod_lt _ (by norm_num)), eD]
+
+
+theorem u256Sub_one (fl : Flags) (r : Nat) (h : 1 ≤ r) : u256Sub fl r 1 = .ok (r - 1) := by
+  have : ¬ r < 1 := by omega
+  simp [u256Sub, Word.wsub, this]
+
+/-- what `base.pow(r)` returns inside `log` (panic on overflow disabled) -/
+def powOf (b r : Nat) : Nat := if b ^ r < 2 ^ 256 then b ^ r else 0
+
+theorem u256Pow_wrapping (fl : Flags) (hw : fl.wrapping = true) (b r : Nat) (hr : r < 2 ^ 32) :
+    u256Pow fl b r = .ok (powOf b r) := by
+  rw [u256Pow_eq fl b r hr]
+  unfold powOf overflowOutcome
+  by_cases h : b ^ r < 2 ^ 256
+  · simp only [h, ↓reduceIte]
+  · simp only [h, ↓reduceIte, hw]
+
+/-- the correction loop of `u256::log` walks down from any over-estimate to the floor logarithm -/
+theorem u256LogLoop_ok (fl : Flags) (hw : fl.wrapping = true) (x b L : Nat) (hb : 2 ≤ b) (hx : x < 2 ^ 256)
+    (h1 : b ^ L ≤ x) (h2 : x < b ^ (L + 1)) :
+    ∀ (f r : Nat), L ≤ r → r < f → f ≤ 2 ^ 32 → u256LogLoop fl x b f r (powOf b r) = .ok L := by
+  intro f
+  induction f with
+  | zero => intro r _ h; omega
+  | succ f ih =>
+    intro r hLr hrf hf
+    rw [u256LogLoop]
+    by_cases c : r = L
+    · subst c
+      have hp : powOf b r = b ^ r := by
+        unfold powOf; rw [if_pos (by omega)]
+      have hpos : 0 < b ^ r := Nat.pow_pos (by omega)
+      have : ¬ (x < powOf b r ∨ powOf b r = 0) := by rw [hp]; omega
+      rw [if_neg this]; rfl
+    · have hgt : L + 1 ≤ r := by omega
+      have hbig : x < b ^ r := lt_of_lt_of_le h2 (Nat.pow_le_pow_right (by omega) hgt)
+      have : x < powOf b r ∨ powOf b r = 0 := by
+        unfold powOf
+        by_cases hh : b ^ r < 2 ^ 256
+        · left; rw [if_pos hh]; exact hbig
+        · right; rw [if_neg hh]
+      rw [if_pos this]
+      have hr1 : 1 ≤ r := by omega
+      have hmod : (r - 1) % W64 = r - 1 := by
+        apply Nat.mod_eq_of_lt
+        have : (2:ℕ) ^ 32 < W64 := by norm_num
+        omega
+      simp only [u256Sub_one fl r hr1, Res.ok_bind, hmod, u256Pow_wrapping fl hw b (r - 1) (by omega)]
+      exact ih (r - 1) (by omega) (by omega) (by omega)
+
+/-- `u256::log` (with the `fix:`): reverts for base < 2 or self = 0, otherwise returns the floor
+logarithm `L`, `b^L ≤ x < b^(L+1)`. -/
+theorem u256Log_dflt (x b : Nat) (hx : x < 2 ^ 256) (hb : b < 2 ^ 256) :
+    (b < 2 ∨ x = 0 → u256Log {} x b = .revert FAILED_ASSERT) ∧
+    (2 ≤ b → 1 ≤ x → ∃ L, u256Log {} x b = .ok L ∧ b ^ L ≤ x ∧ x < b ^ (L + 1)) := by
+  have hfl : (disablePanicOnOverflow {}).unsafeMath = false := rfl
+  have hwl : (disablePanicOnOverflow {}).wrapping = true := rfl
+  have hpu : panicOnUnsafeMathEnabled (disablePanicOnOverflow {}) = true := rfl
+  constructor
+  · intro h
+    unfold u256Log
+    simp only [hpu, true_and]
+    by_cases c : b < 2
+    · simp [c]
+    · have : x = 0 := by rcases h with h | h; exact absurd h c; exact h
+      simp [c, this]
+  · intro h2b h1x
+    unfold u256Log
+    have c1 : ¬ b < 2 := by omega
+    have c2 : ¬ x = 0 := by omega
+    simp only [hpu, true_and, c1, c2, ↓reduceIte, not_true_eq_false, false_and, or_self]
+    by_cases c3 : x < b
+    · refine ⟨0, by simp [c3], by simpa using h1x, by simpa using c3⟩
+    · simp only [c3, ↓reduceIte]
+      have hb0 : b ≠ 0 := by omega
+      obtain ⟨i1, i2⟩ := ilogAux_spec b h2b 256 x h1x hx
+      set L := ilogAux b 256 x with hL
+      have hlb1 : 1 ≤ Nat.log2 b := by
+        by_contra hc
+        have : Nat.log2 b < 1 := by omega
+        rw [Nat.log2_lt hb0] at this
+        omega
+      have hls : Nat.log2 x < 256 := by rw [Nat.log2_lt c2]; exact hx
+      -- the estimate is an over-estimate
+      have hest : L ≤ Nat.log2 x / Nat.log2 b := by
+        rw [Nat.le_div_iff_mul_le (by omega)]
+        have e1 : 2 ^ (Nat.log2 b * L) ≤ b ^ L := by
+          rw [pow_mul]; exact Nat.pow_le_pow_left (Nat.log2_self_le hb0) L
+        have e2 : x < 2 ^ (Nat.log2 x + 1) := Nat.lt_log2_self
+        have e3 : 2 ^ (Nat.log2 b * L) < 2 ^ (Nat.log2 x + 1) := by omega
+        have e4 := (Nat.pow_lt_pow_iff_right (by norm_num : 1 < 2)).mp e3
+        rw [Nat.mul_comm]; omega
+      have hr0 : Nat.log2 x / Nat.log2 b < 256 := lt_of_le_of_lt (Nat.div_le_self _ _) hls
+      have hmod : Nat.log2 x / Nat.log2 b % W64 = Nat.log2 x / Nat.log2 b := by
+        apply Nat.mod_eq_of_lt; have : (256:ℕ) < W64 := by norm_num
+        omega
+      have hlbne : Nat.log2 b ≠ 0 := by omega
+      refine ⟨L, ?_, i1, i2⟩
+      simp only [u256Log2_safe _ hfl x hx, c2, ↓reduceIte, Res.ok_bind, u256Log2_safe _ hfl b hb, hb0,
+        u256Div_ok _ _ _ hlbne, hmod, u256Pow_wrapping _ hwl b _ (by omega : Nat.log2 x / Nat.log2 b < 2 ^ 32)]
+      exact u256LogLoop_ok _ hwl x b L h2b hx i1 i2 300 _ hest (by omega) (by norm_num)
+
 end SwayVerif.StdNum
